@@ -6,7 +6,8 @@
     ids, [run step sched state threads] executes it; every theorem quantifying over [sched] and the
     thread list holds for every interleaving of any number of goroutines. *)
 From Coq Require Import String List NArith Bool Arith Permutation.
-From Fabio Require Import Lib.Outcome Lib.Bytes Model.Interleave Model.GlobCacheC06 Proofs.Interleave Proofs.GlobCacheC06.
+From Fabio Require Import Lib.Outcome Lib.Bytes Model.Interleave Model.GlobCacheC06 Model.GlobCacheFine
+  Proofs.Interleave Proofs.GlobCacheC06 Proofs.GlobCacheFine Proofs.InterleaveMore.
 Import ListNotations.
 
 (* ---- the host-pattern cache, one goroutine at a time ---- *)
@@ -38,6 +39,30 @@ Theorem C06_globcache_every_schedule : forall size sched s ts, gc_inv size s -> 
   gc_inv size (fst (run g_step sched s ts)) /\ Forall q_thread_ok (snd (run g_step sched s ts)).
 Proof. exact globcache_every_schedule_l. Qed.
 Print Assumptions C06_globcache_every_schedule.
+
+(* ---- lock reduction: the same for the FINE-grained machine of the repaired code, mutex explicit
+   (Model/GlobCacheFine.v: fast-path Load; Lock, enabled only while the mutex is free; then every read and
+   write of l, h, n and every sync.Map call of the critical section as its own action; Unlock), lock-free
+   fast-path Loads of other goroutines interleaving anywhere.  Assumed: each sync.Map Load/Store/Delete is
+   one linearizable action; sync.Mutex gives mutual exclusion (Lock takes a free mutex in one action).
+   EVERY schedule, any number of goroutines: whenever the mutex is free the sequential invariant holds, and
+   at every point no Get has panicked or returned anything but the glob compiled from its own pattern. ---- *)
+Theorem C06_globcache_fine_inv : forall size calls sched, 0 < size ->
+  let r := run f_step sched (f_new size) (map (fun c => f_init (fst c) (snd c)) calls) in
+  (f_lock (fst r) = false ->
+     c_n (f_c (fst r)) <= size /\ length (m_keys (c_m (f_c (fst r)))) <= size
+     /\ incl (m_keys (c_m (f_c (fst r)))) (c_l (f_c (fst r))) /\ length (c_l (f_c (fst r))) = size)
+  /\ Forall f_thread_ok (snd r).
+Proof. exact globcache_fine_inv_l. Qed.
+Print Assumptions C06_globcache_fine_inv.
+
+(* the inductive invariant itself ([f_inv]: one holder or none; sequential invariant at release points; the
+   holder is on the path of the uninterrupted Get from the state it locked in; the map is sound at every
+   point), from any state satisfying it *)
+Theorem C06_globcache_fine_every_schedule : forall size sched s ts, f_inv size s ts ->
+  f_inv size (fst (run f_step sched s ts)) (snd (run f_step sched s ts)).
+Proof. exact globcache_fine_every_schedule_l. Qed.
+Print Assumptions C06_globcache_fine_every_schedule.
 
 (* ---- the cache BEFORE fix d9b7eff ([g_step_unrepaired]: no mutex, every access its own action) ---- *)
 (* even there a Get that returned a glob returned the one compiled from the requested pattern ... *)
@@ -88,6 +113,26 @@ Theorem C06_rr_exact_shares : forall len c k p, 0 < len -> (c + N.of_nat (k * le
 Proof. exact rr_exact_shares_l. Qed.
 Print Assumptions C06_rr_exact_shares.
 
+(* per target, for ANY ring: over k full turns target t is picked exactly k x (number of ring slots holding t)
+   times ([slot ring x] is what a pick that used cursor value x returns: C06_picks_are_slots) *)
+Theorem C06_rr_exact_target_shares : forall (ring : list nat) d c k t, ring <> [] ->
+  (c + N.of_nat (k * length ring) <= two64)%N ->
+  count_nat t (map (fun p => nth p ring d) (positions (length ring) (consecutive c (k * length ring)))) = k * count_nat t ring.
+Proof. exact rr_exact_target_shares_l. Qed.
+Print Assumptions C06_rr_exact_target_shares.
+
+Theorem C06_picks_are_slots : forall (ring : list nat) d cs, ring <> [] ->
+  map (slot ring) cs = map Ok (map (fun p => nth p ring d) (positions (length ring) cs)).
+Proof. exact picks_are_slots. Qed.
+Print Assumptions C06_picks_are_slots.
+
+(* the list Check/C06.v computes for the expected picks ([window]: walk round the ring from c mod len) is
+   the list of what the picks return *)
+Theorem C06_window_is_slots : forall (ring : list nat) c j, ring <> [] -> (c + N.of_nat j <= two64)%N ->
+  map (slot ring) (consecutive c j) = map Ok (window ring c j).
+Proof. exact window_is_slots_l. Qed.
+Print Assumptions C06_window_is_slots.
+
 (* finding F-C06-2 (fixed by 633ec31): rrPicker before the fix ([rr_step_unrepaired]: plain read, later atomic add): both goroutines index slot 0,
    slot 1 is skipped, although the cursor advanced by two *)
 Theorem C06_rr_torn_refuted :
@@ -123,6 +168,18 @@ Theorem C06_redirect_serial_history_ok : forall tmpl reqs,
   = map (fun q => Some (Ok (rd_own tmpl (fst q) (snd q)))) reqs.
 Proof. exact redirect_serial_history_ok_l. Qed.
 Print Assumptions C06_redirect_serial_history_ok.
+
+(* ... and a STATIC template (no $path, no $host: the shared write stores the same value whoever performs
+   it) is answered correctly under EVERY schedule, any number of requests - which delimits the open finding
+   F-C06-1 exactly: templates that substitute something from the request *)
+Theorem C06_redirect_static_every_schedule : forall tmpl sched reqs, static tmpl ->
+  Forall (fun l => match rd_got l with
+                   | None => rd_at l <> DDone
+                   | Some r => r = Ok (rd_own tmpl (rd_path l) (rd_host l))
+                   end)
+         (snd (run (rd_step tmpl) sched rd_start (map (fun q => rd_init (fst q) (snd q)) reqs))).
+Proof. exact redirect_static_every_schedule_l. Qed.
+Print Assumptions C06_redirect_static_every_schedule.
 
 (* ---- with those three shared effects set aside a lookup reads nothing but its arguments ---- *)
 (* the answer is a function of table, request and the cursor of the answering route ... *)
